@@ -21,6 +21,9 @@ pub struct C06;
 /// expected auxiliary energy per (system, service, step); None where the statement defines no
 /// proportion (all outputs zero at the step): there only conservation and sign are required
 pub struct AuxModel {
+    /// per system and step: Σ|SALIDA values| / Σ_services |summed output| (>= 1): how much the
+    /// f32 rounding of the output sums is amplified by cancellation between lines of one service
+    pub cond: BTreeMap<i32, Vec<f64>>,
     pub declared: BTreeMap<i32, Vec<f64>>,
     pub expect: BTreeMap<(i32, Srv), Vec<Option<f64>>>,
     pub multi: BTreeSet<i32>,
@@ -29,7 +32,7 @@ pub struct AuxModel {
 
 pub fn aux_model(b: &Building) -> AuxModel {
     let n = b.n;
-    let mut m = AuxModel { declared: BTreeMap::new(), expect: BTreeMap::new(), multi: BTreeSet::new(), special_steps: false };
+    let mut m = AuxModel { cond: BTreeMap::new(), declared: BTreeMap::new(), expect: BTreeMap::new(), multi: BTreeSet::new(), special_steps: false };
     for l in &b.lines {
         if let Kind::Aux = l.kind {
             let e = m.declared.entry(l.id).or_insert_with(|| vec![0.0; n]);
@@ -54,6 +57,27 @@ pub fn aux_model(b: &Building) -> AuxModel {
                     e[t] += l.vals[t] as f64;
                 }
             }
+        }
+        {
+            let mut abs_all = vec![0.0f64; n];
+            for l in b.lines.iter().filter(|l| l.id == *id) {
+                if let Kind::Out { .. } = &l.kind {
+                    for t in 0..n {
+                        abs_all[t] += l.vals[t].abs() as f64;
+                    }
+                }
+            }
+            let cond: Vec<f64> = (0..n)
+                .map(|t| {
+                    let tot: f64 = q.values().map(|w| w[t].abs()).sum();
+                    if tot > 0.0 {
+                        (abs_all[t] / tot).max(1.0)
+                    } else {
+                        1.0
+                    }
+                })
+                .collect();
+            m.cond.insert(*id, cond);
         }
         let signs: BTreeSet<i8> = q.values().flat_map(|v| v.iter()).filter(|x| **x != 0.0).map(|x| if *x > 0.0 { 1 } else { -1 }).collect();
         if signs.len() == 2 {
@@ -144,7 +168,8 @@ impl Prop for C06 {
                 if let Some(e) = exp[t] {
                     let x = g.map(|g| g[t]).unwrap_or(0.0);
                     let d = m.declared[id][t];
-                    ensure!((x - e).abs() <= 16.0 * EPS32 * d + 1e-9, "aux_share", "system {} service {} step {}: share {} but the model gives {} (declared {})", id, srv.name(), t, x, e, d);
+                    let cond = m.cond.get(id).map(|c| c[t]).unwrap_or(1.0);
+                    ensure!((x - e).abs() <= 16.0 * EPS32 * d * cond + 1e-9, "aux_share", "system {} service {} step {}: share {} but the model gives {} (declared {})", id, srv.name(), t, x, e, d);
                 }
             }
         }
